@@ -236,7 +236,15 @@ def compare_scores(got, want, where, key=None):
         raise Violation("score-count", f"{where}: {len(got)} scores for {len(want)} splits", key)
     for i, (g, w) in enumerate(zip(got, want)):
         if np.isnan(w):
-            continue  # no claim (non-finite predictions)
+            # non-finite predictions on this split: raising or a NaN score are both fine (scikit-learn's choice);
+            # a FINITE score can only come from scoring a subset of the test rows
+            if np.isfinite(g):
+                raise Violation(
+                    "score-on-subset-of-test-rows",
+                    f"{where}: split {i}: the model's predictions for the test rows contain NaN, yet verde reports the finite score {g!r} (all: {got})",
+                    key,
+                )
+            continue
         if not close(g, w):
             raise Violation(
                 "score-differs-from-model",
